@@ -27,22 +27,17 @@ Qed.
 
 (* the table name is not mistaken for IF NOT EXISTS *)
 Lemma table_not_ine : forall q t rest, table_ok q t = true ->
-  kw_free q (match tschema t with Some s => s | None => tname t end) = true -> sp_or_end rest = true ->
+  kw_free q (match tschema t with s :: _ => s | [] => tname t end) = true -> sp_or_end rest = true ->
   strip_prefix "IF NOT EXISTS " (render_table q t ++ rest) = None.
 Proof.
-  intros q [n [s|]] rest H Hk Hr; unfold table_ok in H; cbn [tname tschema] in *;
-    apply Bool.andb_true_iff in H as [Hn Hs]; unfold render_table; cbn [tname tschema];
-    change "IF NOT EXISTS " with ("IF" ++ String " " "NOT EXISTS ").
-  - rewrite sapp_assoc. apply name_not_kw; try reflexivity; auto.
-    intros ->. now destruct (kw_free_neq _ Hk).
-  - apply name_not_kw; try reflexivity; auto using sp_or_end_stops.
-    intros ->. now destruct (kw_free_neq _ Hk).
+  intros q t rest H Hk Hr. change "IF NOT EXISTS " with ("IF" ++ String " " "NOT EXISTS ").
+  apply table_not_kw; try reflexivity; auto. intros ->. now destruct (kw_free_neq _ Hk).
 Qed.
 
 (* ---------- the hypotheses, taken apart ---------- *)
 Lemma spec_ok_parts : forall q t calls, spec_ok q t calls = true ->
   table_ok q t = true
-  /\ kw_free q (match tschema t with Some s => s | None => tname t end) = true
+  /\ kw_free q (match tschema t with s :: _ => s | [] => tname t end) = true
   /\ (existsb is_call_temporary calls && existsb is_call_unlogged calls)%bool = false
   /\ (match last_sel calls with Some _ => negb (existsb is_body_call calls) | None => nonempty (calls_columns calls) end) = true
   /\ forallb (column_ok q) (calls_columns calls) = true
@@ -51,9 +46,9 @@ Lemma spec_ok_parts : forall q t calls, spec_ok q t calls = true ->
   /\ (match last_pk calls with Some ns => forallb (name_ok q) ns | None => true end) = true
   /\ (match last_fk calls with Some f => fkey_ok q f | None => true end) = true.
 Proof.
-  intros q t calls H. unfold spec_ok in H.
+  intros q t calls H. unfold spec_ok in H. remember (table_ok q t) as tok eqn:Etok.
   repeat (apply Bool.andb_true_iff in H as [H ?H]).
-  apply Bool.negb_true_iff in H6. repeat split; try assumption. unfold table_ok. now rewrite H, H8.
+  apply Bool.negb_true_iff in H6. subst tok. repeat split; assumption.
 Qed.
 
 (* ---------- the body ---------- *)
